@@ -1,4 +1,4 @@
-import Autd3.Lemmas.GroupMain
+import Autd3.Lemmas.GroupHist2
 /-!
 # C13 — `group_send` is per-group send and never leaves the geometry altered
 
@@ -412,5 +412,342 @@ theorem effTimeout_zero_iff (l : List DgOpt) :
 example : aggOptions [⟨0, usizeMax⟩, ⟨200, 4⟩, ⟨20, 7⟩] = ⟨200, 4⟩ := by decide
 example : effTimeout none (aggOptions [⟨0, 3⟩, ⟨0, 2⟩]) = 0 ∧ effTimeout (some 5) (aggOptions [⟨0, 3⟩]) = 5 := by decide
 example : ParMode.auto.isParallel 3 2 = true ∧ ParMode.auto.isParallel 2 2 = false ∧ ParMode.off.isParallel 9 0 = false := by decide
+
+/-! ## histories: several calls on the same controller
+
+The theorems above are about ONE call on a controller whose `tx` slots hold nothing the devices have
+not executed.  `Lemmas/GroupHist.lean` adds the state that lives across calls — per device the
+controller's `tx` slot (`Port.txId`, `Port.txFrame`) and the device's receiver (`Port.lastId`,
+`Port.exec`: what it has executed) — and `run : CtlState → List Call → CtlState × List Result` over
+calls (`group_send` or plain `send`, each with the `enable` flags the user writes before it, its own
+`HashMap` order and link script).  Result, flags and log of each call are those of the audited
+single-call model (`Call.outcome`); the `tx` side follows `pack_op` / `Link::send` / `ecat_recv`.
+
+A slot is *clean* when `txId = lastId`.  A call **failed after packing** (`failedAfterPacking`) when it
+ended with a `pack` error or with the `Link::send` of a round failing: then slots hold fresh ids that
+were never transmitted, nothing rolls them back, and the next transmission of ANY call hands them to
+their devices (`unsent_frame_counterexample` — the `known:` finding
+`group:unsent-frame-delivered-later:*`).  Restrictions used below, weakest last:
+
+* **R1** `NoUnsent st cs` — no call of the history failed after packing
+  (`history_*_partial`);
+* **R2** `Covered st (fun _ => false) cs` — after a call that failed after packing, every call up to
+  and including the first one that transmits (and does not itself fail after packing) addresses every
+  device the failed call(s) addressed (`history_unmapped_untouched_covered`; R1 ⇒ R2 by
+  `history_covered_of_noUnsent`);
+* **exact** — for one call on ANY state: a device the call does not address executes something iff
+  its slot is not clean and the call transmits at least once (`history_unmapped_untouched_iff`); a
+  device the call DOES address executes exactly its own frames whenever its slot can be packed again
+  (`history_group_equiv_readdressed`: every slot but the one 127 unsent packs behind its device).
+
+The failing device's own slot after a `pack` error (id bumped over the old payload, `Port.bumped`) is
+not only read off `pack_op`: the instrumented `group` stream shows it delivered to device 1 as frame
+`1:x01` (the payload `open` left) in the call after `{0: g17, 1: m61.1}`. -/
+
+section Histories
+
+variable {st : CtlState}
+
+/-- **enable flags restored, every call of every history** (no restriction: earlier calls may have
+failed anywhere): after the call the geometry — indices and `enable` of every device — is the one the
+call started on (`restore … c.en`: the flags as the user wrote them before the call); and if no call
+writes flags, it is the initial geometry. -/
+theorem history_enable_restored (hwf : WF st.geo) (cs : List Call) (hord : ∀ c ∈ cs, c.Ordered)
+    (c : Call) (hc : c.Ordered) :
+    (step (run st cs).1 c).1.geo = restore (run st cs).1.geo c.en ∧
+    ((∀ c' ∈ cs, c'.en = []) → c.en = [] → (step (run st cs).1 c).1.geo = st.geo) := by
+  have h1 := step_geo (run_wf hwf cs hord) c hc
+  refine ⟨h1, fun hen hce => ?_⟩
+  rw [h1, Call.geoOf, hce, restore_nil, run_geo_of_no_en hwf cs hord hen]
+
+/-- **the executed sequence is the logged one (R1)**: if no earlier call failed after packing, then
+in every call — whatever its own exit — every device executes exactly the frames the single-call model
+logs for it (`devFrames log i`), in that order.  (This is what the `group` driver folds into its
+per-device read-back on `cont=1` lines.) -/
+theorem history_exec_eq_log_partial (hwf : WF st.geo) (hcl : AllClean st.ports) (cs : List Call)
+    (hord : ∀ c ∈ cs, c.Ordered) (hno : NoUnsent st cs) (c : Call) (hc : c.Ordered) (i : Nat) :
+    ((step (run st cs).1 c).1.ports i).exec =
+      ((run st cs).1.ports i).exec ++ (devFrames (c.outcome (c.geoOf (run st cs).1)).log i).map some :=
+  step_exec (run_wf hwf cs hord) c hc i (Or.inl (run_clean hwf hcl cs hord hno i))
+
+/-- **read-back over histories (R1)**: the read-back of every device after a call is the fold of
+that call's logged frames over its read-back before the call — `Drv.C13.foldObs`, what the `group`
+driver carries across `cont=1` lines; on a fresh controller it is `devObs` of the call. -/
+theorem history_obs_partial (hwf : WF st.geo) (hcl : AllClean st.ports) (cs : List Call)
+    (hord : ∀ c ∈ cs, c.Ordered) (hno : NoUnsent st cs) (c : Call) (hc : c.Ordered) (i : Nat) :
+    ((step (run st cs).1 c).1.ports i).obs =
+      (devFrames (c.outcome (c.geoOf (run st cs).1)).log i).foldl Obs.apply ((run st cs).1.ports i).obs ∧
+    (((run st cs).1.ports i).exec = [] →
+      ((step (run st cs).1 c).1.ports i).obs = devObs (c.outcome (c.geoOf (run st cs).1)).log i) := by
+  have h := obs_of_exec (history_exec_eq_log_partial hwf hcl cs hord hno c hc i)
+  refine ⟨h, fun he => ?_⟩
+  rw [h]; unfold devObs Port.obs; rw [he]; rfl
+
+/-- **unmapped and disabled devices untouched (R1)**: if no earlier call failed after packing, a call
+— whatever its own exit — leaves every device it does not address (`c.addresses d = false`: disabled,
+or mapped to no key) exactly as it was: slot, last id and executed sequence.
+
+Full statement (false on the code as it is, see `unsent_frame_counterexample`): the same without
+`hno`. -/
+theorem history_unmapped_untouched_partial (hwf : WF st.geo) (hcl : AllClean st.ports) (cs : List Call)
+    (hord : ∀ c ∈ cs, c.Ordered) (hno : NoUnsent st cs) (c : Call) (hc : c.Ordered)
+    (d : Device) (hd : d ∈ c.geoOf (run st cs).1) (hun : c.addresses d = false) :
+    (step (run st cs).1 c).1.ports d.idx = (run st cs).1.ports d.idx := by
+  have hwf' := run_wf hwf cs hord
+  rw [step_unaddressed hwf' c hc d.idx (unaddressed_of_mem (geoOf_wf hwf' c) c d hd hun)]
+  split
+  · rfl
+  · exact Port.deliver_of_clean (run_clean hwf hcl cs hord hno d.idx)
+
+/-- **per-group send onto any slot that can be packed again** (one call after ANY history, no
+restriction on earlier calls): if this `group_send` returns `Ok`, an enabled device mapped to a key
+whose slot is `repackable` — clean, or holding an unsent id other than the one exactly 127 (mod 128)
+packs behind the device — executes exactly the frames of a plain `send` of its key's datagram to its
+group / to it alone.  The slot is packed again before anything is transmitted, so the unsent payload
+of an earlier, failed call is never executed by a device the next transmitting call addresses. -/
+theorem history_group_equiv_readdressed (hwf : WF st.geo) (cs : List Call) (hord : ∀ c ∈ cs, c.Ordered)
+    (en : List Bool) (km : Nat → Option Key) (perm : List (Key × Filter) → List (Key × Filter))
+    (hperm : IsOrder perm) (dmap : List (Key × Dg)) (fault : Fault)
+    (hok : (step (run st cs).1 ⟨en, .group km perm dmap, fault⟩).2 = .ok ())
+    (d : Device) (hd : d ∈ restore (run st cs).1.geo en) (he : d.enable = true) (k : Key)
+    (hk : km d.idx = some k) (dg : Dg) (hl : dmap.lookup k = some dg)
+    (hrep : ((run st cs).1.ports d.idx).repackable) :
+    ∃ new : List Frame,
+      ((step (run st cs).1 ⟨en, .group km perm dmap, fault⟩).1.ports d.idx).exec
+        = ((run st cs).1.ports d.idx).exec ++ new.map some ∧
+      new = devFrames (send (withMask (restore (run st cs).1.geo en)
+              (groupMask (restore (run st cs).1.geo en) km k)) dg .none).2 d.idx ∧
+      new.map Frame.payload
+        = (devFrames (send (alone (restore (run st cs).1.geo en) d.idx) dg .none).2 d.idx).map Frame.payload := by
+  have hwf' : WF (restore (run st cs).1.geo en) :=
+    geoOf_wf (run_wf hwf cs hord) ⟨en, .group km perm dmap, fault⟩
+  refine ⟨devFrames (groupSend true perm (restore (run st cs).1.geo en) km dmap fault).log d.idx, ?_, ?_, ?_⟩
+  · apply step_exec (run_wf hwf cs hord) ⟨en, .group km perm dmap, fault⟩ hperm d.idx
+    refine Or.inr ⟨hrep, d, hd, rfl, ?_⟩
+    simp [Call.addresses, he, hk]
+  · exact (group_equiv hwf' hperm dmap fault hok d hd he k hk dg hl).2.1
+  · exact group_equiv_alone hwf' hperm dmap fault hok d hd he k hk dg hl
+
+/-- **per-group send over histories (R1)**: if no earlier call failed after packing and this
+`group_send` returns `Ok`, the executed sequence of every enabled device mapped to a key grows by
+exactly the frames of a plain `send` of its key's datagram to the geometry in which its group alone is
+enabled — which are, up to the record of what a geometry-wide generator saw, the frames of a `send` to
+that device alone. -/
+theorem history_group_equiv_partial (hwf : WF st.geo) (hcl : AllClean st.ports) (cs : List Call)
+    (hord : ∀ c ∈ cs, c.Ordered) (hno : NoUnsent st cs)
+    (en : List Bool) (km : Nat → Option Key) (perm : List (Key × Filter) → List (Key × Filter))
+    (hperm : IsOrder perm) (dmap : List (Key × Dg)) (fault : Fault)
+    (hok : (step (run st cs).1 ⟨en, .group km perm dmap, fault⟩).2 = .ok ())
+    (d : Device) (hd : d ∈ restore (run st cs).1.geo en) (he : d.enable = true) (k : Key)
+    (hk : km d.idx = some k) (dg : Dg) (hl : dmap.lookup k = some dg) :
+    ∃ new : List Frame,
+      ((step (run st cs).1 ⟨en, .group km perm dmap, fault⟩).1.ports d.idx).exec
+        = ((run st cs).1.ports d.idx).exec ++ new.map some ∧
+      new = devFrames (send (withMask (restore (run st cs).1.geo en)
+              (groupMask (restore (run st cs).1.geo en) km k)) dg .none).2 d.idx ∧
+      new.map Frame.payload
+        = (devFrames (send (alone (restore (run st cs).1.geo en) d.idx) dg .none).2 d.idx).map Frame.payload :=
+  history_group_equiv_readdressed hwf cs hord en km perm hperm dmap fault hok d hd he k hk dg hl
+    (Port.repackable_of_clean (run_clean hwf hcl cs hord hno d.idx))
+
+/-- **the exact condition, one call on any state** (no restriction on the history, no assumption on
+the slots): a device the call does not address keeps its executed sequence **iff** its slot is clean
+when the call starts or the call transmits nothing.  So the weakest restriction under which
+`unmapped_untouched` lifts to a history is: *whenever a call transmits, every device it does not
+address has a clean slot.* -/
+theorem history_unmapped_untouched_iff (hwf : WF st.geo) (cs : List Call) (hord : ∀ c ∈ cs, c.Ordered)
+    (c : Call) (hc : c.Ordered) (d : Device) (hd : d ∈ c.geoOf (run st cs).1) (hun : c.addresses d = false) :
+    ((step (run st cs).1 c).1.ports d.idx).exec = ((run st cs).1.ports d.idx).exec ↔
+      (((run st cs).1.ports d.idx).clean ∨ (c.outcome (c.geoOf (run st cs).1)).log = []) := by
+  have hwf' := run_wf hwf cs hord
+  rw [step_unaddressed hwf' c hc d.idx (unaddressed_of_mem (geoOf_wf hwf' c) c d hd hun)]
+  by_cases hlog : (c.outcome (c.geoOf (run st cs).1)).log = []
+  · simp [hlog]
+  · simp only [hlog, if_false, or_false]
+    exact deliver_exec_eq_iff _
+
+/-- **unmapped and disabled devices untouched (R2, the weakest restriction on the calls proved
+sufficient)**: `Covered st (fun _ => false) cs` — every call addresses every device whose slot *may*
+hold an unsent frame, where that set is: empty at first; after a call that failed after packing, the
+devices it addressed (added); unchanged by a call that transmitted nothing (key / generator error);
+empty again after any other call (it ended right after a transmission).  Under it every call of the
+history — the failing ones included — leaves every device it does not address exactly as it was. -/
+theorem history_unmapped_untouched_covered (hwf : WF st.geo) (hcl : AllClean st.ports) (cs : List Call)
+    (hord : ∀ c ∈ cs, c.Ordered) (hcov : Covered st (fun _ => false) cs)
+    (pre : List Call) (c : Call) (post : List Call) (hsplit : cs = pre ++ c :: post)
+    (d : Device) (hd : d ∈ c.geoOf (run st pre).1) (hun : c.addresses d = false) :
+    (step (run st pre).1 c).1.ports d.idx = (run st pre).1.ports d.idx :=
+  covered_untouched cs st _ hwf (suspectsCover_of_clean hcl _) hord hcov pre c post hsplit d hd hun
+
+/-- R2 is weaker than R1 (strictly: `exCovered` below) -/
+theorem history_covered_of_noUnsent (cs : List Call) (hno : NoUnsent st cs) : Covered st (fun _ => false) cs :=
+  covered_of_noUnsent cs st hno
+
+/-! ### the recorded histories of the known finding, and non-vacuity -/
+
+def g17 : Dg := { kind := .gain, id := 17, len := 0, genFail := false }
+def g18 : Dg := { kind := .gain, id := 18, len := 0, genFail := false }
+def m34 : Dg := { kind := .mod, id := 34, len := 900, genFail := false }
+/-- a modulation of one sample: `ModulationSizeOutOfRange` at `pack` -/
+def m61 : Dg := { kind := .mod, id := 61, len := 1, genFail := false }
+
+/-- `group:unsent-frame-delivered-later:link-send-failure`: one device; `group_send(|_| Some(0), {0: g17})`
+with the first `Link::send` failing, then `group_send(|_| None, {})` -/
+def histLink : List Call :=
+  [ ⟨[], .group (fun _ => some 0) id [(0, g17)], .send 0⟩,
+    ⟨[], .group (fun _ => none) id [], .none⟩ ]
+
+/-- the same with the device *disabled* before the second call -/
+def histLinkDisabled : List Call :=
+  [ ⟨[], .group (fun _ => some 0) id [(0, g17)], .send 0⟩,
+    ⟨[false], .group (fun _ => some 0) id [], .none⟩ ]
+
+/-- `group:unsent-frame-delivered-later:pack-failure`: two devices keyed 0, 1 with `{0: g17, 1: m61}`
+(error at the `pack` of device 1, device 0 already packed), then device 0 mapped to no key, `{0: g18}` -/
+def histPack : List Call :=
+  [ ⟨[], .group (fun i => some i) id [(0, g17), (1, m61)], .none⟩,
+    ⟨[], .group (fun i => if i = 1 then some 0 else none) id [(0, g18)], .none⟩ ]
+
+def frameOf (dev : Nat) (dg : Dg) (seen : List Bool) : Frame := { dev := dev, dg := dg, seen := seen, idx := 0 }
+
+/-- **the known finding, kernel-checked on the model**: in each recorded history the first call
+fails after packing (so R1 and the full statement's hypothesis differ exactly here), the second call
+returns `Ok` and does not address device 0 (mapped to no key / disabled), device 0 had executed
+nothing before it — and has executed the first call's `g17` frame after it.  In the pack-failure
+history the failing device's own slot is left with a bumped id over its old payload. -/
+theorem unsent_frame_counterexample :
+    -- link-send failure
+    ((run (CtlState.fresh [true]) histLink).2 = [.error .link, .ok ()] ∧
+     failedAfterPacking (.send 0) (.error .link) ∧
+     (∀ d ∈ (run (CtlState.fresh [true]) (histLink.take 1)).1.geo, (histLink.getD 1 ⟨[], .plain g17, .none⟩).addresses d = false) ∧
+     ((run (CtlState.fresh [true]) (histLink.take 1)).1.ports 0).exec = [] ∧
+     ((run (CtlState.fresh [true]) histLink).1.ports 0).exec = [some (frameOf 0 g17 [true])]) ∧
+    -- the same, device disabled before the second call
+    ((run (CtlState.fresh [true]) histLinkDisabled).2 = [.error .link, .ok ()] ∧
+     (run (CtlState.fresh [true]) histLinkDisabled).1.geo.map (·.enable) = [false] ∧
+     ((run (CtlState.fresh [true]) histLinkDisabled).1.ports 0).exec = [some (frameOf 0 g17 [true])]) ∧
+    -- pack failure on a later device
+    ((run (CtlState.fresh [true, true]) histPack).2 = [.error (.pack 61), .ok ()] ∧
+     failedAfterPacking .none (.error (.pack 61)) ∧
+     ((run (CtlState.fresh [true, true]) (histPack.take 1)).1.ports 0).exec = [] ∧
+     ((run (CtlState.fresh [true, true]) (histPack.take 1)).1.ports 1) = ⟨1, none, 0, []⟩ ∧
+     ((run (CtlState.fresh [true, true]) histPack).1.ports 0).exec = [some (frameOf 0 g17 [true, false])] ∧
+     ((run (CtlState.fresh [true, true]) histPack).1.ports 1).exec = [some (frameOf 1 g18 [false, true])]) := by
+  decide +kernel
+
+/-- three devices, two keys (5, 3), device 2 mapped to no key -/
+def hKm : Nat → Option Key := fun i => [some 5, some 3, none][i]?.join
+def hMap : List (Key × Dg) := [(3, m34), (5, g17)]
+def hSt : CtlState := CtlState.fresh [true, true, true]
+
+/-- `Ok`; then device 1 disabled (so key 3 is unused), the receive of the first round fails; then all
+enabled again, key 3 without datagram (`UnknownKey`) -/
+def hCalls : List Call :=
+  [ ⟨[], .group hKm id hMap, .none⟩,
+    ⟨[true, false, true], .group hKm List.reverse [(5, g18)], .recv 0⟩,
+    ⟨[true, true, true], .group hKm id [(5, g18)], .none⟩ ]
+
+/-- the call observed after `hCalls`: other iteration order, swapped payloads -/
+def hNext : Call := ⟨[], .group hKm List.reverse [(3, m34), (5, g18)], .none⟩
+
+private theorem hCalls_ordered : ∀ c ∈ hCalls, c.Ordered := by
+  intro c hc
+  simp only [hCalls, List.mem_cons, List.not_mem_nil, or_false] at hc
+  rcases hc with rfl | rfl | rfl
+  · exact fun l => List.Perm.refl l
+  · exact fun l => List.reverse_perm l
+  · exact fun l => List.Perm.refl l
+
+private theorem hCalls_noUnsent : NoUnsent hSt hCalls := by
+  refine ⟨?_, ?_, ?_, trivial⟩ <;> decide +kernel
+
+example : WF hSt.geo := by decide
+example : AllClean hSt.ports := fun _ => rfl
+example : hNext.Ordered := fun l => List.reverse_perm l
+example : (run hSt hCalls).2 = [.ok (), .error .link, .error (.unknownKey 3)] := by decide +kernel
+example : NoUnsent hSt hCalls := hCalls_noUnsent
+-- the flags after the history are the ones written before the third call; the mask changed in between
+example : (run hSt hCalls).1.geo.map (·.enable) = [true, true, true] ∧
+    (run hSt (hCalls.take 2)).1.geo.map (·.enable) = [true, false, true] := by decide +kernel
+-- device 2 is in the geometry of the next call and not addressed; device 1 is mapped to key 3
+example : (⟨2, true⟩ : Device) ∈ hNext.geoOf (run hSt hCalls).1 ∧ hNext.addresses ⟨2, true⟩ = false ∧
+    hNext.addresses ⟨1, true⟩ = true := by decide +kernel
+example : (step (run hSt hCalls).1 hNext).2 = .ok () := by decide +kernel
+-- device 1: nothing in the second call (disabled), three modulation frames in the first and in the next
+example : (((run hSt hCalls).1.ports 1).exec.map fun f => f.map (·.idx)) = [some 0, some 1, some 2] ∧
+    (((step (run hSt hCalls).1 hNext).1.ports 1).exec.map fun f => f.map (·.idx))
+      = [some 0, some 1, some 2, some 0, some 1, some 2] ∧
+    ((step (run hSt hCalls).1 hNext).1.ports 2).exec = [] := by decide +kernel
+
+-- the theorems, instantiated on this history
+example : (step (run hSt hCalls).1 hNext).1.geo.map (·.enable) = [true, true, true] := by
+  rw [(history_enable_restored (st := hSt) (by decide) hCalls hCalls_ordered hNext (fun l => List.reverse_perm l)).1]
+  decide +kernel
+example : (step (run hSt hCalls).1 hNext).1.ports 2 = (run hSt hCalls).1.ports 2 :=
+  history_unmapped_untouched_partial (st := hSt) (by decide) (fun _ => rfl) hCalls hCalls_ordered hCalls_noUnsent
+    hNext (fun l => List.reverse_perm l) ⟨2, true⟩ (by decide +kernel) (by decide +kernel)
+example : ∃ new : List Frame,
+    ((step (run hSt hCalls).1 hNext).1.ports 1).exec = ((run hSt hCalls).1.ports 1).exec ++ new.map some ∧
+    new = devFrames (send (withMask (restore (run hSt hCalls).1.geo [])
+            (groupMask (restore (run hSt hCalls).1.geo []) hKm 3)) m34 .none).2 1 ∧
+    new.map Frame.payload
+      = (devFrames (send (alone (restore (run hSt hCalls).1.geo []) 1) m34 .none).2 1).map Frame.payload :=
+  history_group_equiv_partial (st := hSt) (by decide) (fun _ => rfl) hCalls hCalls_ordered hCalls_noUnsent
+    [] hKm List.reverse (fun l => List.reverse_perm l) [(3, m34), (5, g18)] .none (by decide +kernel)
+    ⟨1, true⟩ (by decide +kernel) rfl 3 rfl m34 rfl
+example : ((step (run hSt hCalls).1 hNext).1.ports 0).obs.gId = 18 ∧
+    ((step (run hSt hCalls).1 hNext).1.ports 1).obs.mLen = 900 := by decide +kernel
+
+/-- a plain `send` in the history: `send(g18)` to devices 0 and 2 fails at `Link::send`; the next
+`group_send` addresses device 0 only — device 2 (mapped to no key) executes the unsent `g18` -/
+def histPlain : List Call :=
+  [ ⟨[true, false, true], .plain g18, .send 0⟩,
+    ⟨[true, true, true], .group (fun i => if i = 0 then some 5 else none) id [(5, g17)], .none⟩ ]
+
+example : (run hSt histPlain).2 = [.error .link, .ok ()] ∧
+    (((run hSt histPlain).1.ports 0).exec.map fun f => f.map (·.dg.id)) = [some 17] ∧
+    ((run hSt histPlain).1.ports 1).exec = [] ∧
+    (((run hSt histPlain).1.ports 2).exec.map fun f => f.map (·.dg.id)) = [some 18] := by decide +kernel
+
+/-- R2 but not R1: the first call fails at `Link::send` with devices 0 and 1 packed; the next call
+(device 2 disabled meanwhile) addresses 0 and 1 again, then device 0 and 1 are left out -/
+def exCovered : List Call :=
+  [ ⟨[], .group hKm id hMap, .send 0⟩,
+    ⟨[true, true, false], .group hKm List.reverse [(3, m34), (5, g18)], .none⟩,
+    ⟨[true, true, true], .group (fun i => if i = 2 then some 7 else none) id [(7, g17)], .none⟩ ]
+
+example : ¬ NoUnsent hSt exCovered := by
+  intro h; exact absurd h.1 (by decide +kernel)
+example : Covered hSt (fun _ => false) exCovered := by
+  refine ⟨?_, ?_, ?_, trivial⟩ <;> decide +kernel
+example : (run hSt exCovered).2 = [.error .link, .ok (), .ok ()] := by decide +kernel
+-- devices 0 and 1 executed the second call's frames, never the first call's; device 2 only its own
+example : (((run hSt exCovered).1.ports 0).exec.map fun f => f.map (·.dg.id)) = [some 18] ∧
+    (((run hSt exCovered).1.ports 2).exec.map fun f => f.map (·.dg.id)) = [some 17] := by decide +kernel
+-- the second call packs the slots of devices 0 and 1 again: `history_group_equiv_readdressed` applies
+private theorem exCovered_ordered : ∀ c ∈ exCovered.take 1, c.Ordered := by
+  intro c hc
+  simp only [exCovered, List.take_succ_cons, List.take_zero, List.mem_cons, List.not_mem_nil, or_false] at hc
+  subst hc
+  exact fun l => List.Perm.refl l
+example : ¬ ((run hSt (exCovered.take 1)).1.ports 1).clean ∧ ((run hSt (exCovered.take 1)).1.ports 1).repackable := by
+  decide +kernel
+example : ∃ new : List Frame,
+    ((step (run hSt (exCovered.take 1)).1 ⟨[true, true, false], .group hKm List.reverse [(3, m34), (5, g18)], .none⟩).1.ports 1).exec
+      = ((run hSt (exCovered.take 1)).1.ports 1).exec ++ new.map some ∧
+    new = devFrames (send (withMask (restore (run hSt (exCovered.take 1)).1.geo [true, true, false])
+            (groupMask (restore (run hSt (exCovered.take 1)).1.geo [true, true, false]) hKm 3)) m34 .none).2 1 ∧
+    new.map Frame.payload
+      = (devFrames (send (alone (restore (run hSt (exCovered.take 1)).1.geo [true, true, false]) 1) m34 .none).2 1).map Frame.payload :=
+  history_group_equiv_readdressed (st := hSt) (by decide) (exCovered.take 1) exCovered_ordered
+    [true, true, false] hKm List.reverse (fun l => List.reverse_perm l) [(3, m34), (5, g18)] .none (by decide +kernel)
+    ⟨1, true⟩ (by decide +kernel) rfl 3 rfl m34 rfl (by decide +kernel)
+-- without the second call R2 fails, and so does the property (device 0 executes the stale g17)
+example : ¬ Covered hSt (fun _ => false) (exCovered.eraseIdx 1) := by
+  intro h; exact absurd h.2.1 (by decide +kernel)
+example : (((run hSt (exCovered.eraseIdx 1)).1.ports 0).exec.map fun f => f.map (·.dg.id)) = [some 17] := by
+  decide +kernel
+
+end Histories
 
 end Autd3.Group
